@@ -3,6 +3,7 @@ package main
 // Persistent SMT solver processes (cvc5 --incremental / z3 -in) driven over pipes.
 
 import (
+	"sync"
 	"os"
 	"bufio"
 	"fmt"
@@ -21,6 +22,45 @@ type Solver struct {
 	out     *bufio.Reader
 	timeout int // ms per query
 	dead    bool
+	errBuf  *tailBuf
+	deaths  int
+}
+
+// tailBuf keeps the last bytes written to it (the solver's stderr)
+type tailBuf struct {
+	mu sync.Mutex
+	b  []byte
+}
+
+func (t *tailBuf) Write(p []byte) (int, error) {
+	t.mu.Lock()
+	t.b = append(t.b, p...)
+	if len(t.b) > 2000 {
+		t.b = t.b[len(t.b)-2000:]
+	}
+	t.mu.Unlock()
+	return len(p), nil
+}
+func (t *tailBuf) String() string {
+	t.mu.Lock()
+	defer t.mu.Unlock()
+	return string(t.b)
+}
+
+// restart replaces a dead solver process by a fresh one (the caller re-sends its assertion stack)
+func (s *Solver) restart() error {
+	n, err := startSolver(s.kind, s.timeout)
+	if err != nil {
+		return err
+	}
+	if s.cmd != nil && s.cmd.Process != nil {
+		s.cmd.Process.Kill()
+		go s.cmd.Wait()
+	}
+	d := s.deaths + 1
+	*s = *n
+	s.deaths = d
+	return nil
 }
 
 type SolverStats struct {
@@ -60,11 +100,12 @@ func startSolver(kind string, timeoutMs int) (*Solver, error) {
 	if err != nil {
 		return nil, err
 	}
-	cmd.Stderr = nil
+	eb := &tailBuf{}
+	cmd.Stderr = eb
 	if err := cmd.Start(); err != nil {
 		return nil, err
 	}
-	s := &Solver{kind: kind, cmd: cmd, in: in, out: bufio.NewReaderSize(out, 1<<16), timeout: timeoutMs}
+	s := &Solver{kind: kind, cmd: cmd, in: in, out: bufio.NewReaderSize(out, 1<<16), timeout: timeoutMs, errBuf: eb}
 	if kind == "cvc5" {
 		s.send("(set-logic ALL)")
 	}
@@ -150,6 +191,10 @@ func (s *Solver) check() string {
 	atomic.AddInt64(&st.Queries, 1)
 	if err != nil {
 		atomic.AddInt64(&st.Errors, 1)
+		gLastSolverError.Store(fmt.Sprintf("solver process %s died: %v; stderr: %s", s.kind, err, firstLine(strings.TrimSpace(s.errBuf.String()))))
+		if os.Getenv("VERIF_DEBUG") != "" {
+			fmt.Fprintf(os.Stderr, "SOLVER DIED (%s): %v\n%s\n", s.kind, err, s.errBuf.String())
+		}
 		return "error"
 	}
 	switch {
